@@ -12,7 +12,7 @@
                 child, is acyclic (a rank function decreases along it).  The code
                 itself does not terminate otherwise. *)
 From Coq Require Import List ZArith Bool QArith.
-From NT Require Import Sx Rose RandomTree RandomTreeProofs.
+From NT Require Import Sx Rose RandomTree RandomTreeProofs CaseC20.  (* CaseC20: keeps the correspondence entry point in the same build *)
 Import ListNotations.
 Open Scope Z_scope.
 
